@@ -370,7 +370,30 @@ impl<'tcx> Cx<'tcx> {
                 }
             }
         }
-        let _ = span;
+        // small by-reference constants (promoted `&[-1]`, `&5`): dump the bytes
+        if let ty::Ref(_, inner, _) = ty.kind() {
+            let small = match inner.kind() {
+                ty::Array(elem, _) => elem.is_integral(),
+                _ => inner.is_integral(),
+            };
+            if small && !format!("{:?}", c).contains("/#") {
+                if let Ok(val) = c.eval(tcx, tenv, span) {
+                    if let mir::ConstValue::Scalar(rustc_middle::mir::interpret::Scalar::Ptr(ptr, _)) = val {
+                        let (prov, off) = ptr.prov_and_relative_offset();
+                        if let Some(rustc_middle::mir::interpret::GlobalAlloc::Memory(alloc)) = tcx.try_get_global_alloc(prov.alloc_id()) {
+                            let a = alloc.inner();
+                            let start = off.bytes() as usize;
+                            let len = a.len();
+                            if len >= start && len - start <= 64 {
+                                let bytes = a.inspect_with_uninit_and_ptr_outside_interpreter(start..len);
+                                let bj: Vec<J> = bytes.iter().map(|b| J::Int(*b as i128)).collect();
+                                v.push(("ref_bytes", J::Arr(bj)));
+                            }
+                        }
+                    }
+                }
+            }
+        }
         J::obj(v)
     }
 
